@@ -31,6 +31,34 @@ class S:
                 out.append((b, info))
         return out
 
+    def closure_sites(self, fn):
+        """{closure path: block of fn where the closure value is consumed (passed to a call)}; a closure that is built
+        but whose consumer is not found maps to the block that builds it"""
+        an = self.E.an(fn)
+        out = {}
+        cl = {c.path for c in self.F.closures_of(fn.path)}
+        for b, info in an.calls():
+            for a, pre in zip(info["args"], info.get("pre") or [None] * len(info["args"])):
+                for v in (a, pre):
+                    if v is None:
+                        continue
+                    for c in find_values(v, lambda y: y[0] == "agg" and isinstance(y[1], str) and y[1].startswith("closure:")):
+                        out.setdefault(c[1][len("closure:"):], b)
+        for (b, si), v in an.stmt_val.items():
+            if v is not None and v[0] == "agg" and isinstance(v[1], str) and v[1].startswith("closure:"):
+                out.setdefault(v[1][len("closure:"):], b)
+        return {c: b for c, b in out.items() if c in cl}
+
+    def calls_deep(self, fn, names=None, pred=None):
+        """calls of fn and of the closures it builds: (owner fn, block in owner, info, block of fn standing for the
+        call) - for a call inside a closure the standing block is where fn hands the closure to its consumer"""
+        out = [(fn, b, info, b) for b, info in self.calls(fn, names, pred)]
+        for cpath, site in sorted(self.closure_sites(fn).items()):
+            cf = self.F.fns[cpath]
+            for b, info in self.calls(cf, names, pred):
+                out.append((cf, b, info, site))
+        return out
+
     def callers(self, nice_name):
         f = self.ctx.fn(nice_name)
         return sorted(self.F.nice_of(p) for p in self.ctx.G.callers_of(f.path))
@@ -82,68 +110,9 @@ class S:
         return block not in reach
 
     def thread_map(self, fn):
-        """edge node -> (switch block, forced label value): when a join merges Result/Option values whose
-        variant is known per incoming edge and the join leads straight to the switch on that variant
-        (the lowering of `?` and of match), a path entering through that edge can only take one arm"""
-        an = self.E.an(fn)
-        tm = getattr(an, "_thread_map", None)
-        if tm is not None:
-            return tm
-        tm = {}
-        cfg = an.cfg
-        for J in range(cfg.nblocks):
-            if len(cfg.in_edges[J]) < 2 or J not in an.in_state:
-                continue
-            for L0, ph0 in list(an.in_state[J].items()):
-                if ph0 != ("phi", J, L0) or L0[0] != "local":
-                    continue
-                # follow the straight line from J to the switch on this value's variant, through further joins
-                cur = J
-                tracked = ph0
-                S_ = None
-                for _ in range(8):
-                    info = an.term.get(cur)
-                    if info is None:
-                        break
-                    if info["kind"] == "switch":
-                        D = info["discr"]
-                        if D[0] == "discr" and (D[1] == tracked or (D[1][0] == "try" and D[1][1] == tracked)):
-                            S_ = cur
-                        break
-                    outs = cfg.out_edges[cur]
-                    if len(outs) != 1:
-                        break
-                    nxt = outs[0].dst
-                    if len(cfg.in_edges[nxt]) > 1:
-                        found = None
-                        for L2, v2 in an.in_state.get(nxt, {}).items():
-                            if v2 == ("phi", nxt, L2):
-                                st = an.out_state.get(cur)
-                                if st is not None and an.read(st, L2) == tracked:
-                                    found = v2
-                        if found is None:
-                            break
-                        tracked = found
-                    cur = nxt
-                if S_ is None:
-                    continue
-                for e in cfg.in_edges[J]:
-                    st = an.out_state.get(e.src)
-                    if st is None:
-                        continue
-                    v = an.read(st, L0)
-                    k = None
-                    if v[0] == "agg":
-                        if v[1].endswith((":Ok", ":None")):
-                            k = 0
-                        elif v[1].endswith((":Err", ":Some")):
-                            k = 1
-                    elif v[0] == "call" and v[1].endswith("from_residual"):
-                        k = 1
-                    if k is not None and e.node not in tm:
-                        tm[e.node] = (S_, k)
-        an._thread_map = tm
-        return tm
+        """edge node -> (switch block, forced label value): see prove.compute_threads"""
+        from .prove import compute_threads
+        return compute_threads(self.E.an(fn))[0]
 
     def reach(self, fn, start_nodes, avoid=()):
         """nodes reachable from start_nodes without entering `avoid`, ignoring value-infeasible arms"""
@@ -177,6 +146,66 @@ class S:
                 if y not in avoid:
                     stack.append((y, pend))
         return out
+
+    def paths_to_first(self, fn, start, stops, limit=200):
+        """value-feasible acyclic paths from node `start` to the first block in `stops` on each path:
+        ([path nodes ending at the stop block], number of paths that end without meeting a stop)"""
+        an = self.E.an(fn)
+        cfg = an.cfg
+        tm = self.thread_map(fn)
+        stops = set(stops)
+        done, other = [], [0]
+
+        def go(x, pend, path, onpath):
+            if len(done) + other[0] > limit:
+                return
+            path = path + [x]
+            if x in stops:
+                done.append(path)
+                return
+            if x in tm:
+                pend = tm[x]
+            succs = cfg.succ[x]
+            if pend is not None and x == pend[0]:
+                allowed = []
+                for e in cfg.out_edges[x]:
+                    if e.label[0] == "switch" and e.label[1] == pend[1]:
+                        allowed.append(e.node)
+                    elif e.label[0] == "otherwise" and pend[1] not in e.label[1]:
+                        allowed.append(e.node)
+                succs = allowed
+                pend = None
+            nxt = [y for y in succs if y not in onpath]
+            if not nxt:
+                other[0] += 1
+                return
+            for y in nxt:
+                go(y, pend, path, onpath | {x})
+        go(start, None, [], frozenset())
+        return done, other[0]
+
+    def value_on_path(self, fn, path, v, depth=0):
+        """v with every join value (phi) replaced by what flows in along `path` (the last edge of the path that enters
+        the join's block)"""
+        an = self.E.an(fn)
+        cfg = an.cfg
+        if not isinstance(v, tuple) or not v or depth > 6:
+            return v
+        if v[0] == "phi":
+            J = v[1]
+            for n in reversed(path):
+                if n >= cfg.nblocks:
+                    e = cfg.edges[n - cfg.nblocks]
+                    if e.dst == J:
+                        st = an.out_state.get(e.src)
+                        if st is None:
+                            return v
+                        x = an.read(st, v[2])
+                        return self.value_on_path(fn, path, x, depth + 1) if x != v else v
+            return v
+        if isinstance(v[0], str):
+            return (v[0],) + tuple(self.value_on_path(fn, path, x, depth) if isinstance(x, tuple) else x for x in v[1:])
+        return tuple(self.value_on_path(fn, path, x, depth) if isinstance(x, tuple) else x for x in v)
 
     def reachable_blocks(self, fn, start_nodes, avoid=()):
         cfg = self.E.an(fn).cfg
@@ -316,6 +345,43 @@ def contains_value(v, pred):
             hit.append(x)
     walk(v, f)
     return bool(hit)
+
+
+def leaf_values(an, v, depth=0, seen=None):
+    """the values that can flow into v: joins are expanded to their inputs, and a projection of an aggregate built in
+    this function is replaced by the projected operand (Some(x).0 -> x)"""
+    if seen is None:
+        seen = set()
+    if depth > 12 or not isinstance(v, tuple) or not v or v in seen:
+        return []
+    if v[0] == "phi":
+        seen = seen | {v}
+        out = []
+        for e in an.cfg.in_edges[v[1]]:
+            st = an.out_state.get(e.src)
+            if st is None:
+                continue
+            x = an.read(st, v[2])
+            if x != v:
+                out += leaf_values(an, x, depth + 1, seen)
+        return out
+    if v[0] == "proj":
+        sel = v[2]
+        out = []
+        for l in leaf_values(an, v[1], depth + 1, seen):
+            if l[0] == "agg" and sel[0] == "dc":
+                known = {"None": 0, "Some": 1, "Ok": 0, "Err": 1}.get(l[1].rsplit(":", 1)[-1]) \
+                    if l[1].startswith(("adt:core::option::Option:", "adt:core::result::Result:")) else None
+                if known is None or known == sel[1]:
+                    out.append(l)       # (a mismatching variant is infeasible on this selection)
+            elif l[0] == "agg" and sel[0] == "f" and sel[1] < len(l[2]):
+                out += leaf_values(an, l[2][sel[1]], depth + 1, seen)
+            elif l[0] == "try":
+                out.append(("proj", l, sel))
+            else:
+                out.append(("proj", l, sel))
+        return out
+    return [v]
 
 
 def find_values(v, pred):
